@@ -352,6 +352,11 @@ func ElabHDL(files map[string]string) (*vsim.Sim, error) {
 
 // RunHDL clocks the generated processor until it retired `want` instructions or maxCycles passed.
 func RunHDL(mach *procbuilder.Machine, files map[string]string, env Env, want, maxCycles int) (Trace, *vsim.Sim) {
+	return RunHDLStop(mach, files, env, want, maxCycles, nil)
+}
+
+// RunHDLStop is RunHDL with an additional stop predicate evaluated on every retire snapshot.
+func RunHDLStop(mach *procbuilder.Machine, files map[string]string, env Env, want, maxCycles int, stop func(Snap) bool) (Trace, *vsim.Sim) {
 	var t Trace
 	sim, err := ElabHDL(files)
 	if err != nil {
@@ -393,6 +398,9 @@ func RunHDL(mach *procbuilder.Machine, files map[string]string, env Env, want, m
 		if ret {
 			t.Retires = append(t.Retires, d.snap())
 			t.LastAt = c
+			if stop != nil && stop(t.Retires[len(t.Retires)-1]) {
+				break
+			}
 		}
 	}
 	t.Final = d.snap()
